@@ -22,3 +22,35 @@ def bounded_call(limit, fn, *args):
         return fn(*args)
     finally:
         sys.settrace(old)
+
+
+def line_budget(iters_limit, trials_now=0):
+    """Generous bound on the Python lines one solver call executes: about 2,000 per trial, plus a full
+    recalculation (O(n)) per trial, for n up to the budget (measured: 1,300-1,900 lines per trial)."""
+    n = max(int(iters_limit), int(trials_now)) + 10
+    return 300_000 + 6_000 * n + 60 * n * n
+
+
+def guarded_call(limit, fn, *args):
+    """(result, exceeded): like bounded_call, but also reports a limit that was hit and then swallowed by the code
+    under test (Process.Solve catches BaseException)."""
+    state = {"count": 0, "hit": False}
+
+    def tracer(frame, event, arg):
+        if event == "line":
+            state["count"] += 1
+            if state["count"] > limit:
+                state["hit"] = True
+                raise StepLimit("more than %d lines executed" % limit)
+        return tracer
+
+    old = sys.gettrace()
+    sys.settrace(tracer)
+    try:
+        try:
+            res = fn(*args)
+        except StepLimit:
+            res = None
+    finally:
+        sys.settrace(old)
+    return res, state["hit"]
